@@ -49,10 +49,26 @@ Coef(k, ev) ==
     ELSE PInt(IF CoefNum(k, ev) = 0 THEN 4 ELSE CoefNum(k, ev))
 \* sparse in "num" mode for more than 3 variables (keeps the programs small)
 Terms(nv) == IF nv <= 3 THEN ExpVecs(nv, 3) ELSE {ev \in ExpVecs(nv, 3) : EvSum(ev) <= 2 \/ EvCode(ev) % 5 = 0}
+\* the case under consideration; its sparsity variant decides which terms output k has.  A closure that never
+\* touches an input returns a number whose derivative parts are ABSENT (Derivative::none), not zero matrices:
+\*   "full"                 the generic cubic map
+\*   jacobian, cst = S      the outputs in S are constants (their rows must be zero rows IN PLACE)
+\*   "const"                the (single) output is a constant: every derivative part is unwrapped from absent
+\*   "linear"               degree <= 1: the second-order part of hessian is absent
+\*   "xonly"                partial_hessian of a function of x alone: eps2 and eps1eps2 are absent
+VARIABLE c
+Sp == IF "sp" \in DOMAIN c THEN c.sp ELSE "full"
+TermsK(k, nv) ==
+    LET full == Terms(nv) IN
+    CASE "cst" \in DOMAIN c /\ k \in c.cst -> {ev \in full : EvSum(ev) = 0}
+      [] Sp = "const"  -> {ev \in full : EvSum(ev) = 0}
+      [] Sp = "linear" -> {ev \in full : EvSum(ev) <= 1}
+      [] Sp = "xonly"  -> {ev \in full : \A j \in 1..nv : j > c.m => ev[j] = 0}
+      [] OTHER -> full
 
 \* the polynomial of output k as an element of the ring (for formal differentiation)
 FPoly(k, nv) ==
-    FoldSet(LAMBDA ev, acc : PAdd(acc, PMul(Coef(k, ev), PTerm(Q1, MonoOf(ev)))), P0, Terms(nv))
+    FoldSet(LAMBDA ev, acc : PAdd(acc, PMul(Coef(k, ev), PTerm(Q1, MonoOf(ev)))), P0, TermsK(k, nv))
 \* formal partial derivative with respect to the symbol v
 PD(pp, v) ==
     FoldSet(LAMBDA mm, acc :
@@ -75,7 +91,7 @@ TermB(ty, k, ev, xs) ==
             IF i = 0 THEN B!FromRe(ty, Coef(k, ev)) ELSE B!MulB(ty, F[i - 1], PowB(ty, xs[i], ev[i]))
     IN  F[Len(ev)]
 EvalB(ty, k, nv, xs) ==
-    FoldSet(LAMBDA ev, acc : B!AddB(ty, acc, TermB(ty, k, ev, xs)), B!ZeroB(ty), Terms(nv))
+    FoldSet(LAMBDA ev, acc : B!AddB(ty, acc, TermB(ty, k, ev, xs)), B!ZeroB(ty), TermsK(k, nv))
 
 ---------------------------------------------------------------------------
 (* the drivers, transcribed *)
@@ -153,7 +169,6 @@ ExpThirdPartialVec(n, i, j, k) == LET f == F(1, n) IN
       AtPoint(D1(D1(D1(f, i), j), k), n)>>
 
 ---------------------------------------------------------------------------
-VARIABLE c
 Cases ==
     {[d |-> "first_derivative"], [d |-> "second_derivative"], [d |-> "third_derivative"], [d |-> "second_partial_derivative"]}
     \cup {[d |-> "gradient", n |-> n] : n \in 0..MaxN}
@@ -162,6 +177,13 @@ Cases ==
     \cup {[d |-> "partial_hessian", m |-> m, n |-> n] : m \in 0..IF MaxN > 3 THEN 3 ELSE MaxN, n \in 0..IF MaxN > 3 THEN 3 ELSE MaxN}
     \cup {[d |-> "third_partial_derivative_vec", n |-> n, i |-> i, j |-> j, k |-> k] :
              n \in 1..MaxN, i \in 1..MaxN, j \in 1..MaxN, k \in 1..MaxN}
+    \* sparsity variants: absent derivative parts in the closure's results
+    \cup UNION {{[d |-> "jacobian", n |-> n, m |-> m, cst |-> S] : n \in 1..MaxN, S \in {{1}, {2}, {1, 2}, {m}, {1, m}, 1..m}} :
+                   m \in 2..MaxM}
+    \cup {[d |-> "gradient", n |-> n, sp |-> "const"] : n \in 1..MaxN}
+    \cup {[d |-> "hessian", n |-> n, sp |-> sp] : n \in 1..MaxN, sp \in {"const", "linear"}}
+    \cup {[d |-> "partial_hessian", m |-> m, n |-> n, sp |-> sp] :
+             m \in 1..IF MaxN > 3 THEN 3 ELSE MaxN, n \in 1..IF MaxN > 3 THEN 3 ELSE MaxN, sp \in {"const", "xonly"}}
 \* the Python drivers dispatch on the input length (fixed-size classes up to 10 variables, dynamic beyond)
 CasesPy ==
     {[d |-> "first_derivative"], [d |-> "second_derivative"], [d |-> "third_derivative"], [d |-> "second_partial_derivative"]}
@@ -205,7 +227,7 @@ NV(cc) == CASE cc.d \in {"first_derivative", "second_derivative", "third_derivat
             [] OTHER -> cc.n
 NOut(cc) == IF cc.d = "jacobian" THEN cc.m ELSE 1
 TermsJson(k, nv) ==
-    LET q == SetToSeq(Terms(nv)) IN [t \in 1..Len(q) |-> [e |-> q[t], c |-> PConstVal(Coef(k, q[t]))[1]]]
+    LET q == SetToSeq(TermsK(k, nv)) IN [t \in 1..Len(q) |-> [e |-> q[t], c |-> PConstVal(Coef(k, q[t]))[1]]]
 CV(pp) == PConstVal(pp)                     \* constant polynomial -> rational
 VecJ(v) == [i \in 1..Len(v) |-> CV(v[i])]
 ColJ(m) == [i \in 1..Len(m) |-> CV(m[i][1])]      \* n x 1 column -> list
